@@ -1,8 +1,10 @@
 package checks
 
 import (
+	"fmt"
 	"go/constant"
 	"go/token"
+	"go/types"
 	"strings"
 
 	"fv/internal/core"
@@ -16,11 +18,12 @@ type builtinArgTable struct {
 	prog     *core.Program
 	types    map[string][]string // function name prefix (Go identifier, e.g. "Accept_charset_lookup") -> kinds per index
 	generic  map[string]bool     // Validate uses the generic loop over the table
+	uniform  map[string]string   // Validate requires every argument to have this kind
 	validate map[string]*ssa.Function
 }
 
 func newBuiltinArgTable(prog *core.Program) *builtinArgTable {
-	t := &builtinArgTable{prog: prog, types: map[string][]string{}, generic: map[string]bool{}, validate: map[string]*ssa.Function{}}
+	t := &builtinArgTable{prog: prog, types: map[string][]string{}, generic: map[string]bool{}, uniform: map[string]string{}, validate: map[string]*ssa.Function{}}
 	for _, rel := range []string{"interpreter/function/builtin", "tester/function"} {
 		sp := prog.SSAPkg[rel]
 		if sp == nil {
@@ -62,6 +65,7 @@ func newBuiltinArgTable(prog *core.Program) *builtinArgTable {
 						}
 					}
 					name := rel + "." + strings.TrimSuffix(g.Name(), "_ArgumentTypes")
+					tableLens[g] = int64(len(kinds))
 					lst := make([]string, len(kinds))
 					for i := range lst {
 						lst[i] = kinds[int64(i)]
@@ -77,6 +81,12 @@ func newBuiltinArgTable(prog *core.Program) *builtinArgTable {
 			}
 			name := rel + "." + strings.TrimSuffix(fn.Name(), "_Validate")
 			t.validate[name] = fn
+			argsParam := fn.Params[0]
+			for _, p := range fn.Params {
+				if _, isSlice := p.Type().Underlying().(*types.Slice); isSlice {
+					argsParam = p
+				}
+			}
 			// generic loop: a comparison of args[i].Type() with <name>_ArgumentTypes[i]
 			for _, b := range fn.Blocks {
 				for _, i := range b.Instrs {
@@ -92,12 +102,31 @@ func newBuiltinArgTable(prog *core.Program) *builtinArgTable {
 					}
 					fromArgs := false
 					for x := range core.BackSlice(bo.X) {
-						if p, ok := x.(*ssa.Parameter); ok && p == fn.Params[0] {
+						if p, ok := x.(*ssa.Parameter); ok && p == argsParam {
 							fromArgs = true
 						}
 					}
 					if fromTable && fromArgs {
 						t.generic[name] = true
+					}
+					// uniform validator: args[i].Type() != <const kind> for a loop index i, failing edge returns an error
+					if kc, ok := bo.Y.(*ssa.Const); ok && kc.Value != nil && tagName(kc) != "" && fromArgs && bo.Op == token.NEQ {
+						nonConstIdx := false
+						for x := range core.BackSlice(bo.X) {
+							if ia, ok := x.(*ssa.IndexAddr); ok {
+								if _, isK := core.ConstIntValue(ia.Index); !isK && ia.X == ssa.Value(argsParam) {
+									nonConstIdx = true
+								}
+							}
+						}
+						if nonConstIdx && bo.Referrers() != nil {
+							for _, r := range *bo.Referrers() {
+								if iff, ok := r.(*ssa.If); ok && returnsErrorSoon(iff.Block().Succs[0]) {
+									// the loop must range over all of args: its header compares the index with len(args)
+									t.uniform[name] = tagName(kc)
+								}
+							}
+						}
 					}
 				}
 			}
@@ -119,7 +148,24 @@ func (t *builtinArgTable) guards(fn *ssa.Function, unwrap *ssa.Call, v ssa.Value
 	}
 	name := rel + "." + top.Name()
 	val := t.validate[name]
-	if val == nil || !t.generic[name] {
+	if val == nil {
+		return false
+	}
+	if t.uniform[name] == want {
+		// any element of args
+		if ld, ok := v.(*ssa.UnOp); ok && ld.Op == token.MUL {
+			if ia, ok := ld.X.(*ssa.IndexAddr); ok && len(top.Params) >= 2 && ia.X == ssa.Value(top.Params[len(top.Params)-1]) {
+				for _, b := range top.Blocks {
+					for _, in := range b.Instrs {
+						if call, ok := in.(*ssa.Call); ok && call.Common().StaticCallee() == val && core.DominatedByNil(call, unwrap.Block(), true) {
+							return true
+						}
+					}
+				}
+			}
+		}
+	}
+	if !t.generic[name] {
 		return false
 	}
 	// v must be args[k] with constant k
@@ -234,4 +280,460 @@ func (t *builtinArgTable) explicitCheck(fn *ssa.Function, unwrap *ssa.Call, v ss
 		}
 	}
 	return false
+}
+
+// acceptsArity: does F_Validate accept len(args) == n?  Branches whose condition is a comparison of len(args) with a
+// constant are decided; at the first other condition the arity is considered accepted.
+func (t *builtinArgTable) acceptsArity(val *ssa.Function, n int64) bool {
+	var argsParam *ssa.Parameter
+	for _, p := range val.Params {
+		if _, isSlice := p.Type().Underlying().(*types.Slice); isSlice {
+			argsParam = p
+		}
+	}
+	if argsParam == nil {
+		return true
+	}
+	b := val.Blocks[0]
+	for steps := 0; steps < 64; steps++ {
+		for _, in := range b.Instrs {
+			if r, ok := in.(*ssa.Return); ok {
+				for _, rs := range core.ReturnSites(val) {
+					if rs.Ret == r {
+						for _, v := range rs.Results {
+							if core.IsErrorType(v.Type()) && !core.IsNilConst(v) {
+								return false
+							}
+						}
+					}
+				}
+				return true
+			}
+		}
+		iff, ok := b.Instrs[len(b.Instrs)-1].(*ssa.If)
+		if !ok {
+			if len(b.Succs) == 1 {
+				b = b.Succs[0]
+				continue
+			}
+			return true
+		}
+		res, decided := lenCond(iff.Cond, argsParam, n)
+		if !decided {
+			return true
+		}
+		if res {
+			b = b.Succs[0]
+		} else {
+			b = b.Succs[1]
+		}
+	}
+	return true
+}
+
+// arityDead: block b is only reachable when len(args) == K for a K that F_Validate rejects.
+func (t *builtinArgTable) arityDead(fn *ssa.Function, b *ssa.BasicBlock) bool {
+	if fn.Pkg == nil {
+		return false
+	}
+	rel := strings.TrimPrefix(fn.Pkg.Pkg.Path(), core.ModPath+"/")
+	top := fn
+	for top.Parent() != nil {
+		top = top.Parent()
+	}
+	val := t.validate[rel+"."+top.Name()]
+	if val == nil || len(top.Params) < 1 {
+		return false
+	}
+	args := top.Params[len(top.Params)-1]
+	for _, blk := range top.Blocks {
+		iff, ok := blk.Instrs[len(blk.Instrs)-1].(*ssa.If)
+		if !ok {
+			continue
+		}
+		bo, ok := iff.Cond.(*ssa.BinOp)
+		if !ok || bo.Op != token.EQL {
+			continue
+		}
+		call, ok := bo.X.(*ssa.Call)
+		if !ok {
+			continue
+		}
+		bi, ok := call.Common().Value.(*ssa.Builtin)
+		if !ok || bi.Name() != "len" || call.Common().Args[0] != ssa.Value(args) {
+			continue
+		}
+		k, ok := core.ConstIntValue(bo.Y)
+		if !ok || !core.EdgeDominates(blk, 0, b) {
+			continue
+		}
+		// Validate must have been called and passed
+		passed := false
+		for _, b2 := range top.Blocks {
+			for _, in := range b2.Instrs {
+				if c2, ok := in.(*ssa.Call); ok && c2.Common().StaticCallee() == val && core.DominatedByNil(c2, b, true) {
+					passed = true
+				}
+			}
+		}
+		if passed && !t.acceptsArity(val, k) {
+			return true
+		}
+	}
+	return false
+}
+
+// forwarded: fn is a helper whose variadic/slice parameter is the validated args of every caller (h(args...)); the
+// element args[k] is then guarded in the callers' context.
+func (t *builtinArgTable) forwarded(all []*ssa.Function, fn *ssa.Function, v ssa.Value, want string) bool {
+	ld, ok := v.(*ssa.UnOp)
+	if !ok || ld.Op != token.MUL {
+		return false
+	}
+	ia, ok := ld.X.(*ssa.IndexAddr)
+	if !ok {
+		return false
+	}
+	p, ok := ia.X.(*ssa.Parameter)
+	if !ok {
+		return false
+	}
+	idx := -1
+	for i, q := range fn.Params {
+		if q == p {
+			idx = i
+		}
+	}
+	callers := core.CallersOf(fn, all)
+	if idx < 0 || len(callers) == 0 {
+		return false
+	}
+	for _, cs := range callers {
+		call, ok := cs.(*ssa.Call)
+		if !ok || idx >= len(cs.Common().Args) {
+			return false
+		}
+		cf := cs.Parent()
+		top := cf
+		for top.Parent() != nil {
+			top = top.Parent()
+		}
+		if len(top.Params) == 0 || cs.Common().Args[idx] != ssa.Value(top.Params[len(top.Params)-1]) {
+			return false
+		}
+		// a synthetic element access in the caller's context: reuse the guards with an equivalent value is not possible,
+		// so check the table facts directly
+		rel := strings.TrimPrefix(cf.Pkg.Pkg.Path(), core.ModPath+"/")
+		name := rel + "." + top.Name()
+		val := t.validate[name]
+		if val == nil {
+			return false
+		}
+		passed := false
+		for _, b2 := range top.Blocks {
+			for _, in := range b2.Instrs {
+				if c2, ok := in.(*ssa.Call); ok && c2.Common().StaticCallee() == val && core.DominatedByNil(c2, call.Block(), true) {
+					passed = true
+				}
+			}
+		}
+		if !passed {
+			return false
+		}
+		k, isK := core.ConstIntValue(ia.Index)
+		okIdx := false
+		if t.uniform[name] == want {
+			okIdx = true
+		}
+		if isK && t.generic[name] && int(k) < len(t.types[name]) && t.types[name][k] == want {
+			okIdx = true
+		}
+		if isK && t.validateChecksIndex(val, k, want) {
+			okIdx = true
+		}
+		if !okIdx {
+			return false
+		}
+	}
+	return true
+}
+
+// validateChecksIndex: Validate contains `args[k].Type() != <want>` with a failing edge that returns an error.
+func (t *builtinArgTable) validateChecksIndex(val *ssa.Function, k int64, want string) bool {
+	var argsParam *ssa.Parameter
+	for _, p := range val.Params {
+		if _, isSlice := p.Type().Underlying().(*types.Slice); isSlice {
+			argsParam = p
+		}
+	}
+	for _, b := range val.Blocks {
+		iff, ok := b.Instrs[len(b.Instrs)-1].(*ssa.If)
+		if !ok {
+			continue
+		}
+		bo, ok := iff.Cond.(*ssa.BinOp)
+		if !ok || (bo.Op != token.NEQ && bo.Op != token.EQL) {
+			continue
+		}
+		kc, ok := bo.Y.(*ssa.Const)
+		if !ok || kc.Value == nil || tagName(kc) != want {
+			continue
+		}
+		tc, ok := bo.X.(*ssa.Call)
+		if !ok || !tc.Common().IsInvoke() || tc.Common().Method.Name() != "Type" {
+			continue
+		}
+		l2, ok := tc.Common().Value.(*ssa.UnOp)
+		if !ok {
+			continue
+		}
+		ia2, ok := l2.X.(*ssa.IndexAddr)
+		if !ok || ia2.X != ssa.Value(argsParam) {
+			continue
+		}
+		if k2, ok := core.ConstIntValue(ia2.Index); !ok || k2 != k {
+			continue
+		}
+		failEdge := 0
+		if bo.Op == token.EQL {
+			failEdge = 1
+		}
+		if returnsErrorSoon(b.Succs[failEdge]) {
+			return true
+		}
+	}
+	return false
+}
+
+var tableLens = map[*ssa.Global]int64{}
+
+// constOrTableLen: a constant, or len(<X>_ArgumentTypes) whose literal length is known.
+func constOrTableLen(v ssa.Value) (int64, bool) {
+	if k, ok := core.ConstIntValue(v); ok {
+		return k, true
+	}
+	if call, ok := v.(*ssa.Call); ok {
+		if bi, ok := call.Common().Value.(*ssa.Builtin); ok && bi.Name() == "len" {
+			if ld, ok := call.Common().Args[0].(*ssa.UnOp); ok {
+				if g, ok := ld.X.(*ssa.Global); ok {
+					if n, ok := tableLens[g]; ok {
+						return n, true
+					}
+				}
+			}
+		}
+	}
+	return 0, false
+}
+
+// lenCond: if cond is a comparison of len(args) with a constant, evaluate it for len(args) == n.
+func lenCond(cond ssa.Value, args ssa.Value, n int64) (res bool, ok bool) {
+	switch t := cond.(type) {
+	case *ssa.UnOp:
+		if t.Op == token.NOT {
+			r, ok := lenCond(t.X, args, n)
+			return !r, ok
+		}
+		return false, false
+	case *ssa.BinOp:
+		isLen := func(v ssa.Value) bool {
+			call, ok := v.(*ssa.Call)
+			if !ok {
+				return false
+			}
+			bi, ok := call.Common().Value.(*ssa.Builtin)
+			return ok && bi.Name() == "len" && call.Common().Args[0] == args
+		}
+		var x, y int64
+		if k, isK := constOrTableLen(t.Y); isK && isLen(t.X) {
+			x, y = n, k
+		} else if k, isK := constOrTableLen(t.X); isK && isLen(t.Y) {
+			x, y = k, n
+		} else {
+			return false, false
+		}
+		switch t.Op {
+		case token.LSS:
+			return x < y, true
+		case token.LEQ:
+			return x <= y, true
+		case token.GTR:
+			return x > y, true
+		case token.GEQ:
+			return x >= y, true
+		case token.EQL:
+			return x == y, true
+		case token.NEQ:
+			return x != y, true
+		}
+	}
+	return false, false
+}
+
+// admittedArities: the arities n in 0..16 that F_Validate accepts and that are consistent with every len(args)
+// comparison whose edge dominates block b of F.
+func (t *builtinArgTable) admittedArities(top *ssa.Function, val *ssa.Function, args ssa.Value, b *ssa.BasicBlock) []int64 {
+	var out []int64
+	for n := int64(0); n <= 16; n++ {
+		if val != nil && !t.acceptsArity(val, n) {
+			continue
+		}
+		ok := true
+		for _, blk := range top.Blocks {
+			iff, isIf := blk.Instrs[len(blk.Instrs)-1].(*ssa.If)
+			if !isIf {
+				continue
+			}
+			res, decided := lenCond(iff.Cond, args, n)
+			if !decided {
+				continue
+			}
+			if core.EdgeDominates(blk, 0, b) && !res {
+				ok = false
+			}
+			if core.EdgeDominates(blk, 1, b) && res {
+				ok = false
+			}
+		}
+		if ok {
+			out = append(out, n)
+		}
+	}
+	return out
+}
+
+// checkArgIndices (sim.args): every args[k] with constant k in a built-in F lies inside every arity that can reach it;
+// inside F_Validate a loop over the declared type table may index args only if the smallest accepted arity covers the table.
+func (t *builtinArgTable) checkArgIndices(c *core.Ctx) {
+	for name, val := range t.validate {
+		rel := name[:strings.LastIndex(name, ".")]
+		sp := t.prog.SSAPkg[rel]
+		if sp == nil {
+			continue
+		}
+		top := sp.Func(name[strings.LastIndex(name, ".")+1:])
+		if top == nil || len(top.Params) == 0 {
+			continue
+		}
+		args := ssa.Value(top.Params[len(top.Params)-1])
+		if _, isSlice := args.Type().Underlying().(*types.Slice); !isSlice {
+			continue
+		}
+		// Validate must dominate every element access
+		var valCall *ssa.Call
+		for _, b := range top.Blocks {
+			for _, in := range b.Instrs {
+				if call, ok := in.(*ssa.Call); ok && call.Common().StaticCallee() == val {
+					valCall = call
+				}
+			}
+		}
+		fns := append([]*ssa.Function{top}, top.AnonFuncs...)
+		for _, fn := range fns {
+			for _, b := range fn.Blocks {
+				for _, in := range b.Instrs {
+					ia, ok := in.(*ssa.IndexAddr)
+					if !ok || ia.X != args {
+						continue
+					}
+					k, isK := core.ConstIntValue(ia.Index)
+					if !isK {
+						continue
+					}
+					key := fmt.Sprintf("%s|args[%d]", core.FnName(top), k)
+					if fn != top {
+						c.Instance("sim.args")
+						continue
+					}
+					if valCall == nil || !core.DominatedByNil(valCall, b, true) {
+						c.Report("sim.args", key+"|unvalidated", in.Pos(), fmt.Sprintf("args[%d] is read in %s on a path where %s has not passed", k, core.FnName(top), val.Name()))
+						continue
+					}
+					adm := t.admittedArities(top, val, args, b)
+					bad := int64(-1)
+					for _, n := range adm {
+						if k >= n {
+							bad = n
+						}
+					}
+					if bad >= 0 {
+						c.Report("sim.args", key, in.Pos(), fmt.Sprintf("args[%d] is read in %s on a path that %d argument(s) can reach (the validator accepts that arity): index out of range crashes the process", k, core.FnName(top), bad))
+					} else {
+						c.Discharge("sim.args", key, in.Pos(), fmt.Sprintf("index inside every admitted arity %v", adm))
+					}
+				}
+			}
+		}
+		// inside Validate: args[i] with i ranging over the type table
+		var vargs ssa.Value
+		for _, p := range val.Params {
+			if _, isSlice := p.Type().Underlying().(*types.Slice); isSlice {
+				vargs = p
+			}
+		}
+		minAr := int64(-1)
+		for n := int64(0); n <= 16; n++ {
+			if t.acceptsArity(val, n) {
+				minAr = n
+				break
+			}
+		}
+		for _, b := range val.Blocks {
+			for _, in := range b.Instrs {
+				ia, ok := in.(*ssa.IndexAddr)
+				if !ok || ia.X != vargs {
+					continue
+				}
+				key := core.FnName(val) + "|args[i]"
+				if k, isK := core.ConstIntValue(ia.Index); isK {
+					adm := t.admittedAritiesIn(val, vargs, b)
+					bad := int64(-1)
+					for _, n := range adm {
+						if k >= n {
+							bad = n
+						}
+					}
+					if bad >= 0 {
+						c.Report("sim.args", fmt.Sprintf("%s|args[%d]", core.FnName(val), k), in.Pos(), fmt.Sprintf("%s reads args[%d] on a path that %d argument(s) can reach", val.Name(), k, bad))
+					} else {
+						c.Discharge("sim.args", fmt.Sprintf("%s|args[%d]", core.FnName(val), k), in.Pos(), "guarded by the arity tests")
+					}
+					continue
+				}
+				// non-constant index: which collection does the loop range over?
+				overTable := int64(-1)
+				for _, l := range naturalLoops(val) {
+					if !l.body[b] {
+						continue
+					}
+					for _, hi := range l.header.Instrs {
+						bo, ok := hi.(*ssa.BinOp)
+						if !ok || bo.Op != token.LSS {
+							continue
+						}
+						for x := range core.BackSlice(bo.Y) {
+							if g, ok := x.(*ssa.Global); ok && strings.HasSuffix(g.Name(), "_ArgumentTypes") {
+								overTable = int64(len(t.types[rel+"."+strings.TrimSuffix(g.Name(), "_ArgumentTypes")]))
+							}
+						}
+					}
+				}
+				if overTable < 0 {
+					c.Discharge("sim.args", key, in.Pos(), "loop index ranges over args itself")
+					continue
+				}
+				if minAr >= overTable {
+					c.Discharge("sim.args", key, in.Pos(), fmt.Sprintf("loop over the %d declared types; the smallest accepted arity is %d", overTable, minAr))
+				} else {
+					c.Report("sim.args", key, in.Pos(), fmt.Sprintf("%s indexes args with a loop over its %d declared argument types but accepts %d argument(s): index out of range crashes the process", val.Name(), overTable, minAr))
+				}
+			}
+		}
+	}
+	c.Floor("sim.args", 300)
+}
+
+// admittedAritiesIn: like admittedArities, inside the validator itself (all arities 0..16 that reach block b).
+func (t *builtinArgTable) admittedAritiesIn(val *ssa.Function, args ssa.Value, b *ssa.BasicBlock) []int64 {
+	return t.admittedArities(val, nil, args, b)
 }
